@@ -227,6 +227,23 @@ Section Mgr.
     auto.
   Qed.
 
+  (* the binds a Turtle parse makes *)
+  Lemma m_binds_good l : forall s, good s ->
+    good (fst (m_binds s l)) /\
+    (snd (m_binds s l) = None \/
+     (snd (m_binds s l) = Some EKey /\ existsb (fun e => has_space (fst e)) l = true)).
+  Proof.
+    induction l as [|[p n] r IH]; intros s Hg; cbn [m_binds].
+    - cbn [fst snd]. auto.
+    - destruct (m_bind_good s (Some p) n true false Hg) as [G R].
+      destruct (snd (m_bind s (Some p) n true false)) as [e|] eqn:E; cbn [fst snd].
+      + split; [exact G|]. right. destruct R as [R|(R & p0 & Ep & Hs)]; [discriminate|].
+        inversion Ep; subst. split; [exact R|]. cbn [existsb fst]. now rewrite Hs.
+      + destruct (IH _ G) as [G' R']. split; [exact G'|].
+        destruct R' as [R'|[R1 R2]]; [now left|right]. split; [exact R1|].
+        cbn [existsb fst]. rewrite R2. apply orb_true_r.
+  Qed.
+
   Lemma m_generate_good s ns gen :
     good s -> dget (n2p s) ns = None ->
     let r := m_generate s ns gen in
@@ -508,6 +525,11 @@ Section Mgr.
     - (* reset *)
       cbn [fst snd]. pose proof (m_reset_good s Hg) as G. split; [exact G|]. intros _ _.
       rewrite (bij_ok_of_bij _ (proj1 G)). reflexivity.
+    - (* parse of a Turtle document *)
+      destruct (m_binds_good (eff_decls decls) s Hg) as [G R].
+      destruct (m_binds s (eff_decls decls)) as [s' e]. cbn [fst snd] in *.
+      split; [exact G|]. intros _ _. rewrite (bij_ok_of_bij s' (proj1 G)). cbn [andb].
+      destruct R as [->|[-> R]]; [reflexivity|exact R].
     - (* outside the model *)
       cbn [fst snd]. split; [exact Hg|]. intros _ _.
       rewrite (bij_ok_of_bij s (proj1 Hg)). reflexivity.
@@ -619,6 +641,7 @@ Section Mgr.
     - cbn [fst snd]. unfold m_expand, exn_ok. destruct (split_colon c) as [[pre rest]|]; [|reflexivity].
       destruct (dget (p2n s) pre); reflexivity.
     - reflexivity.
+    - destruct (m_binds s (eff_decls decls)) as [s' [e|]]; reflexivity.
     - reflexivity.
   Qed.
 
